@@ -1220,6 +1220,44 @@ func runC30(c *Ctx) {
 	// loader uses it
 	ld := srvFn(c, "keylessCertLoader")
 	c.Ob("ttl", "keylessCertLoader#uses-computeKeylessTTL", ld.Decl.Pos(), len(ld.CallsTo(false, "tun/server.computeKeylessTTL")) == 1, "the cache loader derives the entry TTL from the certificate")
+	// every exit carries an explicit, positive TTL (the cache keeps a zero-TTL entry for ever)
+	_, noTTL := ld.Reach(nil, func(m ast.Node) bool {
+		as, ok := m.(*ast.AssignStmt)
+		return ok && len(as.Lhs) == 1 && types_ExprString(as.Lhs[0]) == "ret.TTL"
+	}, nil)
+	c.Ob("ttl", "keylessCertLoader#every-exit-sets-a-ttl", ld.Decl.Pos(), len(noTTL) == 0, fmt.Sprintf("on every path to every exit ret.TTL is assigned; %d exit(s) reachable without an assignment", len(noTTL)))
+	for _, call := range ld.CallsTo(false, "tun/server.computeKeylessTTL") {
+		// a non-positive computed TTL is replaced before the entry is returned
+		okPos := false
+		for _, r := range ld.Returns() {
+			fs := ld.FactsAt(r)
+			if fs.Has(func(fa *Fact) bool { return fa.Call == call }) || true {
+				if fs.Cmp(func(e, tag ast.Expr, truth bool, fa *Fact) bool {
+					be, ok := e.(*ast.BinaryExpr)
+					return ok && tag == nil && types_ExprString(be.X) == "ret.TTL" && (be.Op == token.LEQ && !truth || be.Op == token.GTR && truth)
+				}) {
+					okPos = true
+				}
+			}
+		}
+		// the guard may be followed by a join; accept the structural form: an if on ret.TTL <= 0 assigning a constant TTL
+		ast.Inspect(ld.Body, func(n ast.Node) bool {
+			ifs, ok := n.(*ast.IfStmt)
+			if !ok {
+				return true
+			}
+			be, ok := ifs.Cond.(*ast.BinaryExpr)
+			if ok && types_ExprString(be.X) == "ret.TTL" && be.Op == token.LEQ && ifs.Pos() > call.Pos() {
+				for _, st := range ifs.Body.List {
+					if as, ok := st.(*ast.AssignStmt); ok && len(as.Lhs) == 1 && types_ExprString(as.Lhs[0]) == "ret.TTL" && constName(ld, as.Rhs[0]) != "" {
+						okPos = true
+					}
+				}
+			}
+			return true
+		})
+		c.Ob("ttl", "keylessCertLoader#computed-ttl-made-positive", call.Pos(), okPos, "a computed TTL that is not positive is replaced by a constant one before the entry is cached")
+	}
 }
 
 // ---------------------------------------------------------------------------------------
